@@ -20,6 +20,35 @@ mod distance;
 mod error;
 mod hnsw;
 
+/// Verification hook (cargo feature `verif`): a thread-local seeded source for
+/// the layer generator, so a failing history can be replayed. Absent unless a
+/// thread installs it.
+#[cfg(feature = "verif")]
+pub mod verif {
+    use std::cell::Cell;
+
+    thread_local! {
+        static SEED: Cell<Option<u64>> = const { Cell::new(None) };
+    }
+
+    /// Installs (or removes) the seeded layer source of this thread.
+    pub fn set_layer_seed(seed: Option<u64>) {
+        SEED.with(|s| s.set(seed));
+    }
+
+    /// Next uniform sample in `[0, 1)` from the seeded source (SplitMix64).
+    pub fn uniform01() -> Option<f64> {
+        SEED.with(|s| {
+            let mut z = s.get()?.wrapping_add(0x9E37_79B9_7F4A_7C15);
+            s.set(Some(z));
+            z = (z ^ (z >> 30)).wrapping_mul(0xBF58_476D_1CE4_E5B9);
+            z = (z ^ (z >> 27)).wrapping_mul(0x94D0_49BB_1331_11EB);
+            z ^= z >> 31;
+            Some((z >> 11) as f64 / (1u64 << 53) as f64)
+        })
+    }
+}
+
 pub use distance::*;
 pub use error::*;
 pub use hnsw::*;
